@@ -247,6 +247,7 @@ fn c18_case<H: Hasher>(n: usize, threads: usize, hname: &str) -> Outcome {
     for _ in 0..rounds {
         let indexes = draw_indexes(n);
         stats::count("steps.batch_openings", 1);
+        stats::sig((indexes.len() as u64) << 8 | (indexes.windows(2).all(|w| w[0] < w[1]) as u64));
         let bctx = format!("{ctx} indexes={:?}", &indexes[..indexes.len().min(12)]);
         let (bleaves, bproof) = match guard(|| tree.prove_batch(&indexes)) {
             Ok(Ok(o)) => o,
@@ -351,6 +352,8 @@ fn c19_subst<H: Hasher>(n: usize, hname: &str) -> Outcome {
             },
         };
         stats::count(&format!("fault.single_{kind}"), 1);
+        stats::sig_str(kind);
+        stats::sig(i as u64);
         stats::sample(|| format!("{{\"hasher\":\"{hname}\",\"leaves\":{n},\"mode\":\"single\",\"index\":{i},\"fault\":\"{kind}\"}}"));
         return match guard(|| MerkleTree::<H>::verify(root, i2, leaf2, &proof2)) {
             Ok(Err(_)) => Ok(()),
@@ -407,6 +410,8 @@ fn c19_subst<H: Hasher>(n: usize, hname: &str) -> Outcome {
         },
     };
     stats::count(&format!("fault.batch_{kind}"), 1);
+    stats::sig_str(kind);
+    stats::sig(indexes.len() as u64);
     stats::sample(|| format!("{{\"hasher\":\"{hname}\",\"leaves\":{n},\"mode\":\"batch\",\"indexes\":{:?},\"fault\":\"{kind}\"}}", &indexes[..indexes.len().min(10)]));
     match guard(|| MerkleTree::<H>::verify_batch(&root, &idx2, &leaves2, &proof2)) {
         Ok(Err(_)) => Ok(()),
@@ -532,6 +537,7 @@ fn c19_malformed<H: Hasher>(n: usize, hname: &str) -> Outcome {
             },
         };
         stats::count(&format!("fault.{kind}"), 1);
+        stats::sig_str(kind);
         kinds.push(kind);
     }
     let _ = from_bytes;
